@@ -9,7 +9,8 @@ Decided:
          (default body, adapt) come after the writes of the fields they read;
   R09.b  format table: every format of MIME_SUPPORT_MAP has a to_<fmt> method; DEFAULT_MIME is a key; in
          adapt() body and Content-Type come from the same (format, mimetype) pair on both branches (the
-         fallback for an unsupported type -- KeyError handler, ``not in`` branch or ``.get() is None`` branch --
+         fallback for an unsupported type -- KeyError handler, ``not in`` branch, ``.get() is None`` branch, or ``.get(key, D)``
+         with D a private marker object / a constant no format of the table equals and the branch that tells D --
          is a pair of the table); render_error and default_render_error negotiate over the same table and adapt
          the error to the winner;
   R09.c  escaping: to_html / to_xml interpolate only the result of to_escaped_dict(), in which every
@@ -27,14 +28,18 @@ Also decided (necessary conditions found clause by clause):
   R09.b  best_match(table, default): the default is None or a plain-text type of the table; the charset of the Content-Type is
          self.charset; the format table is never modified (stores, mutating methods, global re-binding, in any module that sees it);
          an adapt() of a subclass defers to the inherited one or obeys the same pairing rule; every render_error of the ErrorHandler
-         family negotiates like the base one;
+         family negotiates like the base one; the way an error takes to those renderers: every value a route's execute_error()
+         returns is the result of running its render_error (never the error it was given, never nothing -- anything else is an
+         exception), and where the application calls execute_error() a handler catching Exception answers, on every normal path,
+         with the default renderer; the response returned is one of those two results;
   R09.c  to_html / to_xml are the methods each class of the family *resolves* to (mixins outside the family included); a
          to_escaped_dict() of a subclass obeys the same rule (or extends the inherited mapping with escaped values); placeholders of
          the constant templates never stand in a tag outside quotes; the folded template of to_xml, placeholders replaced by text,
          is one well-formed XML element (xml.etree on a constant of the source).
 Declined: well-formedness of produced bytes, Accept negotiation inside werkzeug, JSON parseability.
 
-Constructs are located by role: values are followed through single-assignment locals (``local_value``), through
+Constructs are located by role: values are followed through single-assignment locals (``local_value``; also a local that is
+encoded in place, ``t = V`` / ``if not isinstance(t, bytes): t = t.encode(cs, ..)``, which stands for the encoded form of V), through
 straight-line helper functions the loader could not inline (``call_result_expr``, ``value_leaves``), through
 ``**local_dict`` (``call_keywords``), loops over literal tables and comprehension / loop spellings.  A template is
 constant when it folds from literals and module constants (``fold_in_function``: a template generated from a constant
@@ -105,6 +110,18 @@ def local_value(fi, name, use_stmt=None):
         if enc is not None:
             st, val = enc
             return _dominating_value(fi, st, val, use_stmt)
+        # ``name = V`` / ``if not isinstance(name, bytes): name = name.encode(cs, ..)``: after the test the local holds the encoded
+        # form of V (V itself when it is bytes already), before it V
+        own = _self_encoded(fi, name, [stmt_of(fi.mod, x) for x in stores])
+        if own is not None:
+            first, test, second, val = own
+            if use_stmt is None:
+                return val
+            if use_stmt is test or use_stmt is second:
+                return _dominating_value(fi, first, first.value, use_stmt)
+            if use_stmt is first or _dominating_value(fi, first, first.value, test) is None:
+                return None
+            return _dominating_value(fi, test, val, use_stmt)
     if len(stores) != 1 or not isinstance(stores[0], ast.Name):
         return None
     st = stmt_of(fi.mod, stores[0])
@@ -147,6 +164,58 @@ def _encoded_arms(fi, stmts, value_of):
             isinstance(ev.func.value, ast.Name) and ev.func.value.id == x):
         return None
     return pa, ev
+
+
+def _bytes_test(t):
+    """(x, negated) for the test ``isinstance(x, bytes)`` / ``not isinstance(x, bytes)`` on a name x; None otherwise."""
+    neg = False
+    if isinstance(t, ast.UnaryOp) and isinstance(t.op, ast.Not):
+        t, neg = t.operand, True
+    if isinstance(t, ast.Call) and isinstance(t.func, ast.Name) and t.func.id == 'isinstance' and len(t.args) == 2 and not t.keywords and \
+            isinstance(t.args[0], ast.Name) and norm(t.args[1]) == 'bytes':
+        return t.args[0].id, neg
+    return None
+
+
+def _self_encoded(fi, name, stmts):
+    """The two bindings of a local that is encoded in place: ``name = V`` followed, in the same statement list, by
+    ``if not isinstance(name, bytes): name = name.encode(cs, ..)`` (that statement alone in its arm, nothing in the other arm; the
+    arguments of encode read nothing the function re-binds) -> (first binding, the if statement, second binding, the expression
+    ``V.encode(cs, ..)`` that stands for what the local holds after the if statement); None otherwise.  The expression is built
+    from the nodes of the tree; ``_vt_stmt`` names the statement its text part is evaluated in."""
+    if len(stmts) != 2:
+        return None
+    plain = lambda s: isinstance(s, ast.Assign) and len(s.targets) == 1 and isinstance(s.targets[0], ast.Name) and s.targets[0].id == name
+    first, second = stmts
+    if not (plain(first) and plain(second)):
+        return None
+    e = second.value
+    if not (isinstance(e, ast.Call) and isinstance(e.func, ast.Attribute) and e.func.attr == 'encode' and isinstance(e.func.value, ast.Name) and
+            e.func.value.id == name and strip_encode(e) is e.func.value):
+        return None
+    test = fi.mod.parents.get(second)
+    if not isinstance(test, ast.If):
+        return None
+    bt = _bytes_test(test.test)
+    if bt is None or bt[0] != name:
+        return None
+    idle = lambda arm: all(isinstance(s, ast.Pass) for s in arm)
+    if not ((bt[1] and test.body == [second] and idle(test.orelse)) or (not bt[1] and test.orelse == [second] and idle(test.body))):
+        return None
+    holder = fi.mod.parents.get(first)
+    block = [b for b in (getattr(holder, f, None) for f in ('body', 'orelse', 'finalbody')) if isinstance(b, list) and first in b]
+    if holder is not fi.mod.parents.get(test) or not block or test not in block[0] or block[0].index(first) > block[0].index(test):
+        return None
+    for a in list(e.args) + [k.value for k in e.keywords]:
+        for n in ast.walk(a):
+            if isinstance(n, ast.Name) and _name_stores(fi, n.id):
+                return None
+    if any(isinstance(n, ast.Name) and n.id == name for n in ast.walk(first.value)):
+        return None
+    val = ast.copy_location(ast.Call(func=ast.copy_location(ast.Attribute(value=first.value, attr='encode', ctx=ast.Load()), e.func),
+                                     args=list(e.args), keywords=list(e.keywords)), e)
+    val._vt_stmt = first
+    return first, test, second, val
 
 
 def _dominating_value(fi, st, val, use_stmt):
@@ -195,7 +264,7 @@ def expand_expr(fi, expr, use_stmt=None, depth=0, keep=()):
             if isinstance(node.ctx, ast.Load) and node.id not in shadowed:
                 v = local_value(fi, node.id, use_stmt)
                 if v is not None:
-                    return ast.copy_location(expand_expr(fi, v, _use_stmt(fi, v), depth + 1, keep), node)
+                    return ast.copy_location(expand_expr(fi, v, getattr(v, '_vt_stmt', None) or _use_stmt(fi, v), depth + 1, keep), node)
             return node
     return X().visit(copy.deepcopy(expr))
 
@@ -1005,6 +1074,27 @@ def _is_table(e):
     return isinstance(e, ast.Name) and e.id == TABLE
 
 
+_NOTHING = object()
+
+
+def _is_marker_object(repo, mod, name):
+    """``name`` resolves (through imports) to a module-level name of the analysed tree that is bound exactly once, to a fresh
+    ``object()``, and that no function re-binds (``global``): a value equal / identical to nothing but itself."""
+    kind, m, vals = repo.resolve(mod, name)
+    if kind != 'value' or m is None or m.external or not isinstance(vals, list) or len(vals) != 1:
+        return False
+    v = vals[0]
+    if not (isinstance(v, ast.Call) and isinstance(v.func, ast.Name) and v.func.id == 'object' and not v.args and not v.keywords):
+        return False
+    if 'object' in m.assigns or 'object' in m.imports or 'object' in m.functions or 'object' in m.classes:
+        return False
+    owner = [n for n, vs in m.assigns.items() if any(x is v for x in vs)]
+    for n in ast.walk(m.tree):
+        if isinstance(n, (ast.Global, ast.Nonlocal)) and set(n.names) & set(owner):
+            return False
+    return True
+
+
 def check_adapt(rep, repo, err, base, msm, ad=None):
     """``ad``: the adapt() to analyse -- the base class' or an override in a class of the family."""
     ad = base.methods['adapt'] if ad is None else ad
@@ -1087,7 +1177,44 @@ def check_adapt(rep, repo, err, base, msm, ad=None):
             return False
         if kind == 'get':
             return implies_absent(conds(ad, st), fv)
+        if kind == 'get-default':
+            cs = conds(ad, st)
+            return has_cond(cs, missing, True) or has_cond(cs, found, False) or \
+                (falsy_default and has_cond(cs, lambda t: isinstance(t, ast.Name) and t.id == fv, False))
         return False
+    # ``TABLE.get(key, D)`` with D a value no entry of the table can be: a private marker object of the module (told by identity or
+    # equality) or a constant that is not a format of the table (told by equality; by truth when it is falsy and no format is)
+    marker, absent_const, falsy_default = None, _NOTHING, False
+    if kind == 'get-default':
+        dflt = lookup_value.args[1]
+        if isinstance(dflt, ast.Name) and dflt.id not in _param_names(ad) and not _name_stores(ad, dflt.id) and _is_marker_object(repo, ad.mod, dflt.id):
+            marker = dflt.id
+        elif not (isinstance(dflt, ast.Name) and (dflt.id in _param_names(ad) or _name_stores(ad, dflt.id))):
+            c = repo.try_fold(dflt, ad.mod, _NOTHING)
+            if c is not _NOTHING and isinstance(c, (str, bool, int, type(None))) and not any(c == v_ for v_ in msm.values()):
+                absent_const = c
+                falsy_default = not c and all(msm.values())
+
+    def default_test(t, want_eq):
+        if not (isinstance(t, ast.Compare) and len(t.ops) == 1):
+            return False
+        op = t.ops[0]
+        a, b = t.left, t.comparators[0]
+        if isinstance(b, ast.Name) and b.id == fv:
+            a, b = b, a
+        if not (isinstance(a, ast.Name) and a.id == fv):
+            return False
+        if marker is not None and isinstance(b, ast.Name) and b.id == marker:
+            return isinstance(op, (ast.Is, ast.Eq) if want_eq else (ast.IsNot, ast.NotEq))
+        if absent_const is not _NOTHING and not (isinstance(b, ast.Name) and (b.id in _param_names(ad) or _name_stores(ad, b.id))):
+            same = repo.try_fold(b, ad.mod, _NOTHING)
+            if same is not _NOTHING and type(same) is type(absent_const) and same == absent_const:
+                ops = (ast.Eq,) + ((ast.Is,) if absent_const is None else ())
+                nops = (ast.NotEq,) + ((ast.IsNot,) if absent_const is None else ())
+                return isinstance(op, ops if want_eq else nops)
+        return False
+    missing = lambda t: default_test(t, True)
+    found = lambda t: default_test(t, False)
     shape = len(reb[fv]) == 1 and len(reb[mp]) == 1 and reb[fv][0][1] is not None and reb[mp][0][1] is not None
     pair = (repo.try_fold(reb[fv][0][1], err), repo.try_fold(reb[mp][0][1], err)) if shape else None
     fb_ok = shape and isinstance(pair[0], str) and isinstance(pair[1], str) and msm.get(pair[1]) == pair[0] and pair[0] == 'text' and \
@@ -1375,7 +1502,8 @@ def run(rep):
                       'constructor); handler slots and uncaught_to_response carry the status of their situation; constructors of error types hand on '
                       'and keep what they are given; class-level defaults are never written')
     rep.rule('R09.b', 'MIME_SUPPORT_MAP exhaustiveness and constancy; one (format, mimetype) pair feeds body and header (charset = self.charset), also in '
-                      'overrides; negotiation over the table with a plain-text / None default in every render_error')
+                      'overrides; negotiation over the table with a plain-text / None default in every render_error; execute_error returns only rendered '
+                      'results, any Exception from it is answered by the default renderer')
     rep.rule('R09.c', 'taint: instance fields reach HTML/XML templates only through html_escape(x, True), in the serialisers each class resolves to; '
                       'placeholders stay out of unquoted attribute position; the XML template is one well-formed element')
     rep.rule('R09.d', 'every reference of the shipped debug templates is escaped')
@@ -1412,7 +1540,7 @@ def value_origin(fi, node):
         v = local_value(fi, node.id, st)
         if v is None:
             break
-        node, st = v, _use_stmt(fi, v)
+        node, st = v, getattr(v, '_vt_stmt', None) or _use_stmt(fi, v)
     return node, st
 
 
@@ -1643,6 +1771,158 @@ def renderer_adapts_negotiated(repo, err, mod_, fi, ename):
         if not ccfg.must_pass(ccfg.nodes_of(stmt_of(caller.mod, c)), ccfg.entry, ccfg.exit, normal_only=True):
             return False
     return True
+
+
+ROUTE_MOD = 'clastic.route'
+ERROR_PARAM = '_error'            # the keyword dispatch hands the error under
+ROUTE_RENDERER = 'render_error'   # the attribute of a bound route that holds its renderer
+
+
+def _route_error_executors(repo):
+    """The execute_error() of BoundRoute and of every class of the tree that derives from it and defines its own."""
+    route = repo.mod(ROUTE_MOD)
+    first = route.func('BoundRoute.execute_error')
+    out = [first]
+    br = first.cls if isinstance(first.cls, ClassInfo) else None
+    if br is not None:
+        for c in repo.subclasses(br):
+            m = c.methods.get('execute_error')
+            if m is not None and not any(m is x for x in out):
+                out.append(m)
+    return out
+
+
+def check_error_executor(rep, repo, ex, renderers):
+    """What a route's execute_error() hands back to dispatch is what its renderer made of the error: every ``return`` yields the
+    result of a call that runs ``self.render_error`` (handed to inject(...) / called in place / a local naming it) -- or of a
+    renderer that negotiates itself; the function does not end without a ``return``.  Whatever else happens must be an
+    exception: that is what sends dispatch to the default renderer.  A path that hands back the error it was given (or
+    nothing) delivers a response nobody negotiated: body and Content-Type stay the plain text of the constructor."""
+    ps = ex.params()
+    if len(ps) < 2 or ERROR_PARAM not in ps:
+        raise AnalysisError('%s: the %s parameter was not found' % (ex.qualname, ERROR_PARAM))
+    me = ps[0]
+    renderer = '%s.%s' % (me, ROUTE_RENDERER)
+    if _name_stores(ex, me):
+        raise AnalysisError('%s re-binds %s: not followed' % (ex.qualname, me))
+    rets = returns_of(ex)
+
+    def origin(e, use, depth=0):
+        """('ok' | 'bad' | 'unknown', text): is the value the result of running the renderer?  A local bound several times is
+        what each of its bindings makes it."""
+        e = expand_expr(ex, e, use)
+        if isinstance(e, ast.Call):
+            parts = [e.func] + [a.value if isinstance(a, ast.Starred) else a for a in e.args] + [k.value for k in e.keywords]
+            if any(norm(x) == renderer for x in parts):
+                return 'ok', None
+            if isinstance(e.func, ast.Name) and not (e.func.id in _param_names(ex) or _name_stores(ex, e.func.id)):
+                k, m_, obj = repo.resolve(ex.mod, e.func.id)
+                if k == 'func' and any(obj is fi_ for mod__, fi_ in renderers):
+                    return 'ok', None
+            return 'unknown', short(e, 50)
+        if isinstance(e, ast.Name) and e.id in _param_names(ex):
+            return 'bad', 'its own argument %s' % e.id
+        if isinstance(e, ast.Name) and depth < 3:
+            verdicts = []
+            for n in _name_stores(ex, e.id):
+                st = stmt_of(ex.mod, n) if isinstance(n, ast.Name) else None
+                if isinstance(st, ast.Assign) and len(st.targets) == 1 and st.targets[0] is n:
+                    verdicts.append(origin(st.value, st, depth + 1))
+                else:
+                    verdicts.append(('unknown', e.id))
+            for want in ('bad', 'unknown'):
+                hit = [v for v in verdicts if v[0] == want]
+                if hit:
+                    return hit[0]
+            return ('ok', None) if verdicts else ('unknown', e.id)
+        if isinstance(e, (ast.Constant, ast.Attribute, ast.Subscript, ast.Dict, ast.List, ast.Tuple)) and depth == 0:
+            return 'bad', short(e, 40)
+        return 'unknown', short(e, 50)      # (one binding of several, e.g. an initial None: which one reaches the return is not followed)
+    bad, unknown = [], []
+    for r in rets:
+        if r.value is None:
+            bad.append((r, 'nothing'))
+            continue
+        verdict, text = origin(r.value, r)
+        if verdict == 'bad':
+            bad.append((r, text))
+        elif verdict == 'unknown':
+            unknown.append((r, text))
+    if not bad and _falls_off(ex):
+        bad.append((ex.node, 'nothing (a path ends without a return)'))
+    if not bad and unknown:
+        raise AnalysisError('%s: cannot tell whether %s is the result of running %s' % (ex.qualname, unknown[0][1], renderer))
+    ok = bool(rets) and not bad and not _self_attr_stores(ex, ROUTE_RENDERER)
+    rep.check('R09.b', fkey(ex, 'hands back what the renderer returns'), ok,
+              'every value %s returns is the result of running the route\'s %s; anything else is an exception' % (ex.name, ROUTE_RENDERER) if ok else
+              '%s returns %s without running the route\'s %s: dispatch takes it for the rendered response, the default renderer is '
+              'never reached and nobody negotiates the format (the client gets the constructor\'s text/plain whatever it accepts)' %
+              (ex.qualname, bad[0][1] if bad else 'a value', ROUTE_RENDERER), ex.mod, bad[0][0] if bad else ex.node)
+
+
+def check_error_fallback(rep, repo, app, renderers):
+    """Where the application asks the route of an error to render it (``<route>.execute_error(...)``): the call stands in a ``try``
+    whose handler catches Exception -- a route without a renderer, a renderer that fails, an injection that fails all arrive as
+    one --, every normal path through that handler replaces the outcome by the result of a negotiating renderer
+    (default_render_error), and the value the function then returns is the one of those two, not re-bound in between."""
+    sites = []
+    for fi in app.functions.values():
+        for c in walk_body(fi.node):
+            if isinstance(c, ast.Call) and isinstance(c.func, ast.Attribute) and c.func.attr == 'execute_error':
+                sites.append((fi, c))
+    if not sites:
+        raise AnalysisError('clastic.application: the call <route>.execute_error(...) that renders an error was not found')
+
+    def outcome(fi, st, call):
+        """('return', None) / ('bind', name) when the statement returns / names the result of the call, else None"""
+        if isinstance(st, ast.Return) and st.value is call:
+            return ('return', None)
+        if isinstance(st, ast.Assign) and st.value is call and len(st.targets) == 1 and isinstance(st.targets[0], ast.Name):
+            return ('bind', st.targets[0].id)
+        return None
+
+    def is_fallback(fi, e):
+        if not (isinstance(e, ast.Call) and isinstance(e.func, ast.Name)) or e.func.id in _param_names(fi) or _name_stores(fi, e.func.id):
+            return False
+        k, m_, obj = repo.resolve(fi.mod, e.func.id)
+        return k == 'func' and any(obj is fi_ for mod__, fi_ in renderers)
+    for fi, call in sites:
+        st = stmt_of(fi.mod, call)
+        out = outcome(fi, st, call)
+        if out is None:
+            raise AnalysisError('%s: what becomes of the result of %s cannot be followed' % (fi.qualname, short(call, 40)))
+        cfg = cfg_of(fi)
+        h = protected_by(fi, call, 'Exception')
+        why = None
+        if h is None:
+            why = 'the call %s is not under a handler that catches Exception: a route without a renderer / a failing renderer is not ' \
+                  'answered by the default renderer' % short(call, 50)
+        else:
+            fb = []
+            for s_ in [x for b in h.body for x in ast.walk(b) if isinstance(x, ast.stmt)]:
+                v = s_.value if isinstance(s_, (ast.Return, ast.Assign)) else None
+                if v is not None and is_fallback(fi, v) and (isinstance(s_, ast.Return) or outcome(fi, s_, v) == out):
+                    fb.append(s_)
+            hn = cfg.handler_nodes(h)
+            if not hn:
+                raise AnalysisError('%s: the handler around %s is not in the control-flow graph' % (fi.qualname, short(call, 40)))
+            if not fb or not cfg.must_pass(cfg.nodes_of_all(fb), hn, cfg.exit, normal_only=True):
+                why = 'when %s raises, the handler does not always answer with the default renderer: the error goes out as it was ' \
+                      'constructed (text/plain), whatever the client accepts' % short(call, 50)
+            elif out[0] == 'bind':
+                # the name holds one of the two results when the function returns it
+                src = cfg.nodes_of(st) + cfg.nodes_of_all(fb)
+                rn = [n for r in returns_of(fi) for n in cfg.nodes_of(r)]
+                after = [m for x in src for m in cfg.succ[x]]
+                reached = cfg.reach(after, avoid=src)
+                mid = (reached & cfg.coreach(rn, avoid=src)) - set(rn)
+                late = [r for r in returns_of(fi) if set(cfg.nodes_of(r)) & reached]
+                if cfg._kills(ast.Name(id=out[1], ctx=ast.Load()), mid) or \
+                        any(not (isinstance(r.value, ast.Name) and r.value.id == out[1]) for r in late if not is_fallback(fi, r.value)):
+                    why = 'the rendered response held in %s is not what %s returns afterwards' % (out[1], fi.qualname)
+        ok = why is None
+        rep.check('R09.b', fkey(fi, 'a failing route renderer falls back to the default renderer'), ok,
+                  'the result of execute_error(...) or, on any Exception, of default_render_error(...) is the response' if ok else why, fi.mod, call)
 
 
 def check_adapt_override(rep, repo, err, base, msm, m):
@@ -1962,6 +2242,10 @@ def rule_b(rep, repo, err, app, base):
         ok = renderer_adapts_negotiated(repo, err, mod_, fi, '_error')
         rep.check('R09.b', fkey(fi), bool(ok), 'negotiates over MIME_SUPPORT_MAP, adapts the error to the winner and returns it' if ok else
                   '%s does not negotiate over MIME_SUPPORT_MAP / adapt / return the same error' % fi.qualname, mod_, fi.node)
+    # the way an error takes to those renderers: the route's own one, else -- on any exception -- the default one
+    for ex in _guarded(rep, _route_error_executors, repo) or []:
+        _guarded(rep, check_error_executor, rep, repo, ex, renderers)
+    _guarded(rep, check_error_fallback, rep, repo, app, renderers)
     k, m_, obj = repo.resolve(app, TABLE)
     if k == 'unknown':
         # application.py no longer names the table itself (the negotiation moved into the errors module): the
@@ -1970,7 +2254,7 @@ def rule_b(rep, repo, err, app, base):
     else:
         rep.check('R09.b', 'clastic.application::MIME_SUPPORT_MAP', m_ is err, 'default_render_error uses the errors module\'s table' if m_ is err else
                   'application.py uses a different MIME_SUPPORT_MAP', app)
-    rep.floor('R09.b', 10)
+    rep.floor('R09.b', 12)
 
 
 def rule_c(rep, repo, err, base, fam):
